@@ -176,6 +176,15 @@ class Session:
         if aux is not None:
             ev["aux"] = self.enc(aux)
         self.emit(ev)
+        # the caller owns what a prediction returns: scribbling on it (here: to per cent) must not reach any later call
+        if isinstance(val, list):
+            ret = list(val)
+            for i, x in enumerate(val):
+                if isinstance(x, tuple) and len(x) == 2 and isinstance(x[1], float):
+                    val[i] = (x[0], x[1] * 100.0)
+                elif isinstance(x, float):
+                    val[i] = x * 100.0
+            return ret
         return val
 
     def new_rating(self, mh, mu=ABSENT, sigma=ABSENT, name=ABSENT, group="", role=""):
